@@ -21,13 +21,20 @@ CLAIMED = {
             "seeded deterministic simulation: start-event invariant against the run's own history"),
 }
 
-PENDING = {'C06': 'not claimed yet: the check for this property is still being built (see DESIGN.md build order)', 'C07': 'not claimed yet: the check for this property is still being built (see DESIGN.md build order)', 'C09': 'not claimed yet: the check for this property is still being built (see DESIGN.md build order)', 'C12': 'not claimed yet: the check for this property is still being built (see DESIGN.md build order)', 'C13': 'not claimed yet: the check for this property is still being built (see DESIGN.md build order)', 'C15': 'not claimed yet: the check for this property is still being built (see DESIGN.md build order)', 'C16': 'not claimed yet: the check for this property is still being built (see DESIGN.md build order)', 'C17': 'not claimed yet: the check for this property is still being built (see DESIGN.md build order)', 'C20': 'not claimed yet: the check for this property is still being built (see DESIGN.md build order)'}
+PENDING = {'C06': 'not claimed yet: the check for this property is still being built (see DESIGN.md build order)', 'C07': 'not claimed yet: the check for this property is still being built (see DESIGN.md build order)', 'C09': 'not claimed yet: the check for this property is still being built (see DESIGN.md build order)', 'C15': 'not claimed yet: the check for this property is still being built (see DESIGN.md build order)', 'C16': 'not claimed yet: the check for this property is still being built (see DESIGN.md build order)', 'C20': 'not claimed yet: the check for this property is still being built (see DESIGN.md build order)'}
 
 CLAIMED["C10"] = ("travsim", "3.13", "history check against an executable model of the documented retry/stop/replay/verdict rules, with distinct-identifier and own-result (serial-tagged results) checks, valid and invalid settings, replayed jobs across crash-restart epochs",
                   "seeded deterministic simulation with fault injection: refinement against an executable retry/replay reference model")
 
 CLAIMED["C14"] = ("locksim", "5", "fault enumeration: a crash at every yield point and an injected exception at every fallible call inside the critical section of every transfer kind, with 1-3 contenders under seeded schedules; stalled holders vs timeouts; seeded fault-free interleavings of 2-8 processes; invariants on lock ownership, overlap, byte-identity, link rules checked at every intercepted operation",
                   "deterministic simulation: baton-passed threads over fake fcntl/clock/copy with crash and error injection at every step")
+
+CLAIMED["C12"] = ("statesim", "4.1", "operation-by-operation comparison of the real check/get/set/unset/push/pop with the README policy table and a set-of-names store model over seeded histories, with backend errors injected at the k-th backend call",
+                  "seeded simulated histories with injected backend faults checked step by step against an executable reference model")
+CLAIMED["C13"] = ("statesim", "4.2", "simulated cluster of pools (workers on gateways/hosts, shared and swarm pools, evolving placement, lost writes, invalid caches); the fake transport's contact log is compared with an independent scope/proximity model",
+                  "seeded simulated multi-party store histories; contact log vs independent scope model")
+CLAIMED["C17"] = ("statesim", "4.3", "histories of per-image and per-vm state operations with crashes between the per-image steps and lost writes over vms with 1-3 images; the real listing code (both regexes, intersection across images, memory files) is compared with a set model after every step",
+                  "seeded crash/lost-write histories over a fake disk; listing vs set model after every step")
 
 NOT_APPLICABLE = {
     "C11": "pure function of the argument list and the configuration files: no schedule, clock, fault or multi-party behaviour for a simulator to control (DESIGN.md 6)",
@@ -77,12 +84,18 @@ DEFAULT_NOTE = ("Sampling, not proof. Trusted: the simulator's stubs (virtual-ti
                 "state effects, world model of pools behind the state-control door), the third-party Cartesian parser (memoised), "
                 "and the oracle's reading of the property. Real: all of avocado_i2n.cartgraph, plugins/runner.run_workers/run_test_node, params_parser.")
 NOTES = {}
+NOTES["C12"] = ("Sampling. One in-memory backend stands for all real backends; the experimental check_mode is modelled as coded and the strict no-alteration reading is checked in the check_mode=rr family; "
+               "after an injected backend error only 'old or new states, nothing else changed' is required.")
+NOTES["C13"] = ("Sampling. No scheduling inside one pool operation: what is simulated is the multi-party store and its history. 'Closest' is the documented order written independently of proximity().")
+NOTES["C17"] = ("Sampling over reachable assignments. The per-regex part of C17 is exercised through the fake qemu-img listing only (sizes in B/KiB/MiB/GiB, names with dots, dashes, digits).")
 NOTES["C14"] = ("Crash and exception points are enumerated completely per operation kind; the schedules around them are sampled. Trusted: the fake "
                "record-lock table (owner = sim-process, released on unlock/death), the chunked fake copy, the virtual clock. Real: pool.image_lock and "
                "TransferOps.*_local/*_link on real files. Remote (ssh) transfers take no lock in the code and are outside the simulator.")
 ENGINES = [
     {"name": "travsim", "path": "/verif/travsim", "serves_properties": sorted(p for p, v in CLAIMED.items() if v[0] == "travsim"),
      "kind_free_text": "asyncio virtual-time loop running the real graph parsing and multi-worker traversal; simulated executions, state-control door over a durable world model, crash-restart epochs; plans with keyed decisions"},
+    {"name": "statesim", "path": "/verif/statesim", "serves_properties": ["C12", "C13", "C17"],
+     "kind_free_text": "seeded operation-and-fault histories (backend errors, crashes between per-image steps, lost writes, invalid caches) against the real state policy / pool / listing code over in-memory stores, each step checked against a reference model"},
     {"name": "locksim", "path": "/verif/locksim", "serves_properties": ["C14"],
      "kind_free_text": "baton-passing scheduler over real threads: one sim-process runs at a time, preempted at every intercepted fcntl/sleep/copy-chunk/unlink/hash call; fake POSIX record locks, virtual clock, crash = frozen process"},
 ]
